@@ -568,3 +568,176 @@ func c13LookupNeverReadsThroughAnEOFTolerantLoader(r *core.Report) {
 		r.Undecided(rule, "compactindex#lookup-roots", "", "no Lookup entry point found")
 	}
 }
+
+// epochRoutedOnlyAfterTheFilter (C02.R12 / C18.R12): which epoch holds a signature is decided by the per-epoch sig-to-cid
+// index, which keeps 24 bits of hash per key and so answers for signatures it never stored. The epoch search may take its
+// answer only after the epoch's sig-exists filter (64-bit hashes) said the signature is there: every call of
+// (*Epoch).FindCidFromSignature under findEpochNumberFromSignature is dominated by a true outcome of <filter>.Has(sig) - in
+// the same function, or established (directly, or as the nil outcome of a checking helper) before every call of the helper
+// the lookup sits in. A "fast path" that probes the newest epoch first routes transactions of older epochs to it and the
+// request ends as not-found.
+func epochRoutedOnlyAfterTheFilter(r *core.Report, rule string) {
+	p := r.Prog
+	f := r.Anchor(rule, "main.(*MultiEpoch).findEpochNumberFromSignature")
+	if f == nil {
+		return
+	}
+	scope := append([]*core.Func{f}, allLits(f)...)
+	for _, h := range pkgScope(p, f, 2) {
+		if h.Lit == nil && h != f {
+			scope = append(scope, h)
+			scope = append(scope, allLits(h)...)
+		}
+	}
+	// jobs handed on as method values or function references (jobGroup.Add(search.run))
+	{
+		seen := map[*core.Func]bool{}
+		for _, fn := range scope {
+			seen[fn] = true
+		}
+		for _, fn := range append([]*core.Func{}, scope...) {
+			if fn.Body == nil {
+				continue
+			}
+			info := fn.Pkg.TypesInfo
+			for _, c := range core.CallsIn(fn.Body, false) {
+				for _, a := range c.Args {
+					var fo *types.Func
+					switch x := core.Unparen(a).(type) {
+					case *ast.SelectorExpr:
+						fo, _ = info.Uses[x.Sel].(*types.Func)
+					case *ast.Ident:
+						fo, _ = info.Uses[x].(*types.Func)
+					}
+					if fo == nil {
+						continue
+					}
+					if h := p.ByObj[fo.Origin()]; h != nil && h.Body != nil && h.Pkg == f.Pkg && !seen[h] {
+						seen[h] = true
+						scope = append(scope, h)
+						scope = append(scope, allLits(h)...)
+					}
+				}
+			}
+		}
+	}
+	// hasTrueAt: a fact at n says that the first result of a .Has(...) call is true
+	hasTrueAt := func(fn *core.Func, n *core.GNode) bool {
+		if n == nil {
+			return false
+		}
+		info := fn.Pkg.TypesInfo
+		g := p.Graph(fn)
+		for _, fc := range g.FactsAt(n) {
+			id, ok := core.Unparen(fc.Expr).(*ast.Ident)
+			if !ok || fc.Tag != nil || !fc.Truth {
+				continue
+			}
+			o := info.Uses[id]
+			if o == nil {
+				continue
+			}
+			isHas := false
+			ast.Inspect(fn.Root().Body, func(m ast.Node) bool {
+				if as, isAs := m.(*ast.AssignStmt); isAs && len(as.Rhs) == 1 && len(as.Lhs) >= 1 && core.ObjOf(info, as.Lhs[0]) == o {
+					if c, isCall := core.Unparen(as.Rhs[0]).(*ast.CallExpr); isCall && strings.HasSuffix(core.CalleeName(info, c), ".Has") {
+						isHas = true
+					}
+				}
+				return true
+			})
+			if isHas {
+				return true
+			}
+		}
+		return false
+	}
+	// checkerNilAt: a fact at n says err == nil for the error of a helper all of whose nil returns are under has == true
+	checkerNilAt := func(fn *core.Func, n *core.GNode) bool {
+		if n == nil {
+			return false
+		}
+		info := fn.Pkg.TypesInfo
+		g := p.Graph(fn)
+		for _, fc := range g.FactsAt(n) {
+			x, isNil, ok := core.NilCompare(info, fc.Expr)
+			if !ok || isNil != fc.Truth || fc.Edge == nil {
+				continue
+			}
+			eo := core.ObjOf(info, x)
+			if eo == nil || !core.IsErrorType(eo.Type()) {
+				continue
+			}
+			for _, dn := range stmtNodes(g) {
+				as, isAs := dn.Ast.(*ast.AssignStmt)
+				if !isAs || len(as.Rhs) != 1 || core.ObjOf(info, as.Lhs[len(as.Lhs)-1]) != eo || !g.Dominates(dn, fc.Edge) {
+					continue
+				}
+				c, isCall := core.Unparen(as.Rhs[0]).(*ast.CallExpr)
+				if !isCall {
+					continue
+				}
+				fo := core.Callee(info, c)
+				if fo == nil {
+					continue
+				}
+				h := p.ByObj[fo.Origin()]
+				if h == nil || h.Body == nil {
+					continue
+				}
+				hg := p.Graph(h)
+				all, cnt := true, 0
+				for _, rn := range hg.Returns() {
+					if nilErr, dec := isNilErrReturn(h, rn); dec && nilErr {
+						cnt++
+						if !hasTrueAt(h, rn) {
+							all = false
+						}
+					}
+				}
+				if all && cnt > 0 {
+					return true
+				}
+			}
+		}
+		return false
+	}
+	n := 0
+	for _, fn := range scope {
+		if fn.Body == nil {
+			continue
+		}
+		info := fn.Pkg.TypesInfo
+		g := p.Graph(fn)
+		for _, c := range core.CallsIn(fn.Body, false) {
+			if !strings.HasSuffix(core.CalleeName(info, c), "(*Epoch).FindCidFromSignature") {
+				continue
+			}
+			n++
+			nd := g.NodeOf(c.Pos())
+			ok := hasTrueAt(fn, nd) || checkerNilAt(fn, nd)
+			if !ok && fn.Lit == nil && fn != f {
+				// the lookup sits in a helper: the filter's answer is established before every call of the helper
+				sites, good := 0, 0
+				for _, caller := range scope {
+					for _, cs := range p.Calls(caller) {
+						if cs.Callee == nil || p.ByObj[cs.Callee.Origin()] != fn || cs.In != caller {
+							continue
+						}
+						sites++
+						cn := p.Graph(caller).NodeOf(cs.Call.Pos())
+						if hasTrueAt(caller, cn) || checkerNilAt(caller, cn) {
+							good++
+						}
+					}
+				}
+				ok = sites > 0 && good == sites
+			}
+			r.Check(ok, rule, fmt.Sprintf("%s#epoch-lookup@%d-after-the-sig-exists-filter", fn.Key, n), pos(r, c), "the lossy per-epoch lookup is consulted only after the epoch's sig-exists filter answered yes",
+				"the per-epoch sig-to-cid lookup decides the epoch without the sig-exists filter having said yes: the index keeps 24 bits of hash per key, so a signature of an older epoch can be answered by this one, and the transaction is then reported as not found")
+		}
+	}
+	if n == 0 {
+		r.Undecided(rule, f.Key+"#epoch-lookups", posP(r, f.Pos()), "no per-epoch signature lookup found under the epoch search")
+	}
+}
